@@ -82,6 +82,9 @@ def compare(exp, o, check_first=True, pattern=False):
                 bad.append(("move_handed_block_to_unequal_allocator", False, lj.get("same_data")))
         elif lj.get("same_data") is not True:
             bad.append(("move_did_not_transfer_storage", True, lj.get("same_data")))
+    if lj.get("ext_eq_src") is False:
+        # whatever extensions the library reports for the source of a copy (also one without elements), the copy reports the same
+        bad.append(("copy_extensions_differ_from_source", True, False))
     if lj.get("same_extents") and lj.get("same_data") is not True:
         bad.append(("reextent_same_extents_moved_storage", True, lj.get("same_data")))
     return bad
